@@ -142,6 +142,25 @@ def _alg(which):
     return f
 
 
+def _c_str(em, rd, call, args, obj):
+    # std::string::c_str() on the (pointer, length) model: the pointer
+    from .astload import inner
+    from .models import norm_name
+    if obj is None or args:
+        return None
+    me = inner(call)[0] if inner(call) else {}
+    oe = inner(me)[0] if inner(me) else {}
+    try:
+        tn = norm_name(T.type_str(T.strip_quals(T.strip_ref(T.parse(qt(oe))))))
+    except T.TypeParseError:
+        return None
+    import re as _re
+    if not _re.match(r'^(basic_string<char|string$)', tn):
+        return None
+    em.lowerings['M-mem(std::string::c_str)'] += 1
+    return '((%s)->src)' % obj if not obj.strip().startswith('&') else '((%s).src)' % obj.strip()[1:]
+
+
 def _make_pair(em, rd, call, args, obj):
     if obj is not None or len(args) != 2:
         return None
@@ -250,6 +269,7 @@ MODELS = {
     'uncaught_exception': _uncaught,
     'make_pair': _make_pair,
     'find': _find,
+    'c_str': _c_str,
     'find_if': _alg('find_if'),
     'any_of': _alg('any_of'),
     'none_of': _alg('none_of'),
